@@ -130,7 +130,7 @@ def _compute_degree_iterative(expr: Expression) -> Optional[int]:
         # expressions (c @ VectorExpression([...])) the elements decide, exactly
         # as in the recursive version (elements are shallow)
         if isinstance(node, (LinearCombination, VectorSum)):
-            result_stack.append(_compute_degree_impl(node))
+            result_stack.append(node.degree)
             continue
         if isinstance(node, DotProduct):
             result_stack.append(2)
